@@ -248,3 +248,57 @@ def run(rep, facts, tier):
                         rep.ok('R09.4', '%s/pass-through' % b.key, 'returns the inner result unchanged', b.where(cb))
     rep.floor('R09.1', n_base, 1, 'functions issuing the receive-cache query with read-pointer arguments')
     rep.floor('R09.3', n_outer, 3, 'outer loops around try_take_one*/inner poll_next')
+
+    # ------------------------------------------------------------ R09.5 content-dependent panics on the read path
+    rule_09_5(rep, fx, eps)
+
+
+# hazard key -> (class, reason); sites on the pinned tree, each read and judged
+READ_DISCHARGE = {
+    'dds::with_key::datasample_cache::DataSampleCache::add_sample/K3-unwrap:unwrap#1':
+        ('review', 'get_mut of the key inserted in the statement before'),
+    'dds::with_key::datasample_cache::DataSampleCache::add_sample::{closure#1}/K3-panic:panic#1':
+        ('review', 'only if two changes carry the same receive timestamp: the topic cache is keyed by it (unique map key) and each change is handed over once (C01 R01.2)'),
+    'dds::with_key::datasample_cache::DataSampleCache::mark_instances_viewed/K3-panic:panic#1':
+        ('review', 'the instances come from the same cache inside the same &mut call; nothing removes them in between'),
+    'dds::with_key::simpledatareader::SimpleDataReader::acquire_the_topic_cache_guard::{closure#0}/K3-panic:panic#1':
+        ('type', 'only on a poisoned mutex (another thread already panicked)'),
+}
+
+
+def content_type(ty):
+    return any(x in (ty or '') for x in ('SerializedPayload', 'CacheChange', 'DDSData', 'bytes::Bytes'))
+
+
+def rule_09_5(rep, fx, eps):
+    from rdv import taint as T
+    from rules.C06 import auto_cindex, auto_index_min
+    rep.rule('R09.5', 'no content-dependent panic on the read path: on every function reachable from the read/take/poll_next entry points (outside rtps::), a slice/index/split, unwrap/expect, '
+                      'assert or panic whose operand is content of a cached change (SerializedPayload, CacheChange, DDSData, Bytes) is guarded by a dominating length check or is a reviewed '
+                      'site; such a panic happens with the topic-cache and read-state locks held and poisons them, so no later change is delivered')
+    tt = T.Taint(fx, roots=[b.key for b in eps], ty_pred=content_type, skip_prefixes=('security::', 'ros2::', 'rtps::', 'discovery::', 'network::'))
+    seen = set()
+    for h in tt.hazards():
+        if h['kind'] == 'K5-arith' or h['key'] in seen:
+            continue
+        seen.add(h['key'])
+        key = h['key']
+        raw = h['raw']
+        if h['kind'] == 'K3-unwrap' and raw[0] == 'call' and raw[1].endswith('::lock'):
+            rep.ok('R09.5', key, 'poison-only: unwrap of Mutex::lock()', h['where'])
+            continue
+        if h['kind'] == 'K3-cindex':
+            why = auto_cindex(fx, tt, h)
+            rep.check(bool(why), 'R09.5', key, why or '', 'a constant index/slice (%s %s) is applied to the content of a cached change without a dominating length check: a short payload panics '
+                      'with the topic-cache lock held and wedges the reader' % (h['callee'], h['term']), h['where'])
+            continue
+        if h['kind'] == 'K3-index':
+            why = auto_index_min(fx, tt, h)
+            if why:
+                rep.ok('R09.5', key, why, h['where'])
+                continue
+        d = READ_DISCHARGE.get(key)
+        rep.check(d is not None, 'R09.5', key, '%s: %s' % (d or ('', '')), 'content of a cached change reaches a %s hazard (%s) on the read path that is not discharged: %s' % (
+            h['kind'], h['callee'], h['term']), h['where'])
+    rep.coverage_extra['read_path_functions'] = len(tt.reach)
+    rep.floor('R09.5', len(seen), 4, 'hazard sites on the read path')
